@@ -261,9 +261,11 @@ def rule_exec(ctx):
                     R.ob('EXEC-4b', key + '#value', good, 'the stored output is (a clone of) the value the execution returned' if good
                          else 'the stored output does not originate in this execution: %s' % body.describe_origins(k[1]),
                          ctx.where(body, bb), props=('C01', 'C03'))
-            # the output must not be stored *before* the execution (a stale value would be visible while executing)
-            early = [bb for bb in so_blocks if body.must_before(x.bb, lambda n, bb=bb: n == bb) is not None and bb in body.reach([0], stop=lambda n: n == x.bb)
-                     and x.bb in body.reach([bb])]
+            # no output may be stored between the reset and the execution: an aborted execution must leave the task without output (C19)
+            early = [bb for bb in so_blocks if x.bb in body.reach(body.xsucc(bb), avoid=inf)]
+            R.ob('EXEC-4c', key, not early, 'no output is stored before the task has executed (an aborted execution leaves the task without output, so it is executed as new later)' if not early
+                 else 'an output is stored before the task executes: if the execution aborts, the task keeps an output it never produced and is reused', ctx.where(body, early[0]) if early else ctx.where(body, x.bb),
+                 props=('C19', 'C01'))
             # EXEC-5 same node everywhere
             allnodes = reset_nodes | repl_nodes | so_nodes
             good = len(allnodes) == 1 and all(len(s) == 1 for s in allnodes)
